@@ -184,6 +184,23 @@ def make_harness(poller_name, n_ops, max_conns=2):
             w = {'poller': poller_name, 'side': 'server', 'late_write_or_close': late_ops, 'server_closed': c in server_closed,
                  'peer': 'rst' if c.peer_rst else 'fin',
                  'closed_by_failed_write': any(x[0] == 'error' and 'BrokenPipe' in str(x[2]) for x in s)}
+            if c.rst_before_accept:
+                # the peer reset the connection before the server accepted it: the handshake fails (getpeername: ENOTCONN),
+                # no connect is announced; the server must still close the socket and forget it
+                w['reset_before_accept'] = True
+                if 'connect' in kinds or 'read' in kinds:
+                    g.fail('connect-count', w, detail_tail)
+                elif kinds.count('disconnect') > 1:
+                    g.fail('disconnect-count', w, detail_tail)
+                elif 'disconnect' in kinds and s[kinds.index('disconnect') + 1:]:
+                    g.fail('event-after-disconnect', w, detail_tail)
+                elif not c.closed:
+                    g.fail('socket-never-closed', w, detail_tail)
+                else:
+                    held = retained(server, c) + ['poller' + p for p in retained(poller, c)]
+                    if held:
+                        g.fail('state-retained-after-disconnect', w, '%s retained in %s; %s' % (c.label, sorted(set(held)), detail_tail))
+                continue
             if kinds.count('connect') != 1:
                 if kinds.count('connect') == 0 and not kinds:
                     # never accepted: only legitimate if the listener never got to it -- after draining it must have been
